@@ -96,7 +96,7 @@ def main():
             "guard": "verif",
             "enable": "go build -tags verif (bin/check builds every check binary from /repo's working tree through a replace directive)",
             "baseline_off_cmd": BASE,
-            "source_commits": ["46bedf2", "830ccff", "fd85b8b"],
+            "source_commits": ["46bedf2", "830ccff", "fd85b8b", "7781800"],
             "add_only": True,
         },
         "engines": [{"name": "harness", "path": "/verif/harness", "serves_properties": [c["property_id"] for c in checks],
